@@ -1,11 +1,34 @@
 /-
   Props/C17.lean — property theorems for C17 (an argument reported as unused cannot
-  influence the result).  Proved part (all patterns, all values): a parameter that the
-  program's code never *addresses* cannot influence any lookup of the others — changing the
-  value bound to one name leaves every other name's binding unchanged (coincidence lemma on
-  the destructuring), which is what makes "absent from the residual" imply non-interference.
+  influence the result).
+
+  FULL STATEMENT (not proved in this generality; decided by the differential oracle of
+  tools/props/c17.py on the real compilers):
+    for every program `p` of the surface language and every parameter `x` that
+    `check_parameters_used_compileform` reports, for all argument trees `a1 a2` that differ
+    only in `x`:  outcome (compile p) a1 = outcome (compile p) a2   (same value or both fail).
+  It is FALSE for the unchanged tree (findings C17-F1..F4: the partial evaluator drops uses
+  that compiled code still performs).
+
+  PROVED (`…_partial`, this file + Proofs/NonInterference.lean), for the CORE language of
+  Lang/Core.lean whose compiler model `Core.compileCore` is byte-identical to the real code
+  generator (checked on every C01/C17 run): the compiled CODE, run by the consensus evaluator
+  with any operator table implementing `i` and `c`, has the same outcome AT EVERY AMOUNT OF
+  FUEL (same value, same failure, same exhaustion) for two argument values that destructure
+  to bindings agreeing on every name but `x`, whenever `x` is not mentioned by the main
+  expression — in particular whenever the model `Core.reportedUnused` of the use check
+  (Lang/UseCheck.lean: the real check's candidate/eligibility rules, with "token absent from
+  the partially evaluated residue" under-approximated by "name absent from the main
+  expression") reports `x`.  `tools/props/c17.py` records on generated core programs how the
+  real report relates to the model's: a real report inside the model's set is covered by
+  the theorem, one outside it (the evaluator removed an occurrence: helper ignoring an
+  argument, statically decided `if`, C17-F2/F4) only by the differential oracle.
+
+  Also kept: the path-level coincidence lemma (all patterns, all values): what a program
+  reads through a parameter's path depends only on that parameter's binding.
 -/
 import ChialispModel.Props.C01
+import ChialispModel.Proofs.NonInterference
 
 namespace C17
 
@@ -34,5 +57,204 @@ theorem path_reads_only_its_binding (name : Bytes) (pat : Rich) (hok : Lang.patO
   rw [hw1, hw2] at hsame
   have : w1 = w2 := C17.ofVal_inj w1 w2 (by simpa using hsame)
   rw [hl1, hl2, this]
+
+open Clvm
+
+/-- NON-INTERFERENCE OF COMPILED EXPRESSIONS.  `c` is the code the generator emits for the core
+    expression `e` against the environment shape `env`; `(F . A1)` and `(F . A2)` are two
+    run-time environments with the same function table that give the same lookup outcome at
+    the path of every variable `e` reads and every function `e` calls.  Then the two runs
+    have the same outcome at every amount of fuel.  (Intermediate values differ — the lazy
+    `if` evaluates `1` — so this is a statement about the emitted shapes, proved by structural
+    induction with both runs unfolding in lock step.) -/
+theorem compiled_expr_noninterference (ops : OpSem) (hops : Core.OpsCore ops) (env : Rich)
+    (F A1 A2 : Val) (e : Core.Expr) (c : Val) (hc : Core.compileE env e = some c)
+    (hag : ∀ x ∈ Core.usedNames e, ∀ p, Lang.nameLookup x env = some p →
+      Path.lookupNat p (.pair F A1) = Path.lookupNat p (.pair F A2)) :
+    ∀ n, evalC ops n c (.pair F A1) = evalC ops n c (.pair F A2) :=
+  Core.ni_expr ops hops env F A1 A2 e c hc
+    (fun x hx p hp => hag x (by simp [Core.usedNames, hx]) p hp)
+    (fun x hx p hp => hag x (by simp [Core.usedNames, hx]) p hp)
+
+/-- ONLY MENTIONED NAMES MATTER (core language).  For a well-formed core program and two
+    argument values that destructure against the parameter pattern to bindings agreeing on
+    every name the main expression mentions (reads or calls), the compiled program has the
+    same outcome on both at every amount of fuel.  (Any set of unmentioned parameters may
+    vary at once — needed for `(@ cap pat)` captures, where changing a leaf of `pat`
+    necessarily changes `cap` as well.) -/
+theorem unmentioned_noninterfering_core_partial (ops : OpSem) (hops : Core.OpsCore ops) (P : Core.Prog)
+    (hwf : Core.progWF P = true) (code : Val) (hc : Core.compileCore P = some code)
+    (a1 a2 : Val) (ρ1 ρ2 : Lang.Env)
+    (hb1 : Lang.bindPat P.params (Lang.SV.ofVal a1) = some ρ1)
+    (hb2 : Lang.bindPat P.params (Lang.SV.ofVal a2) = some ρ2)
+    (hag : ∀ y ∈ Core.usedNames P.body, Core.paramValue P.params a1 y = Core.paramValue P.params a2 y) :
+    ∀ n, evalC ops n code a1 = evalC ops n code a2 :=
+  Core.ni_compileCore ops hops P hwf code hc a1 a2 ρ1 ρ2 hb1 hb2 hag
+
+/-- same outcome at every fuel ⇒ same value, and failing on one iff failing on the other. -/
+theorem same_outcomes (ops : OpSem) (code a1 a2 : Val)
+    (h : ∀ n, evalC ops n code a1 = evalC ops n code a2) :
+    (∀ v, Evaluates ops code a1 v ↔ Evaluates ops code a2 v) ∧ (Fails ops code a1 ↔ Fails ops code a2) := by
+  refine ⟨fun v => ⟨?_, ?_⟩, ⟨?_, ?_⟩⟩
+  · rintro ⟨n, hn⟩; exact ⟨n, by rw [← h n]; exact hn⟩
+  · rintro ⟨n, hn⟩; exact ⟨n, by rw [h n]; exact hn⟩
+  · rintro ⟨n, t, hn⟩; exact ⟨n, t, by rw [← h n]; exact hn⟩
+  · rintro ⟨n, t, hn⟩; exact ⟨n, t, by rw [h n]; exact hn⟩
+
+/-- C17 ON THE CORE (partial: core language; hypothesis = syntactic absence from the main
+    expression).  For a well-formed core program, a parameter name `x` that the main
+    expression neither reads nor calls, and two argument values that destructure against the
+    parameter pattern to bindings agreeing on every name other than `x`: the compiled program
+    has the same outcome on both at every amount of fuel. -/
+theorem unused_noninterfering_core_partial (ops : OpSem) (hops : Core.OpsCore ops) (P : Core.Prog)
+    (hwf : Core.progWF P = true) (code : Val) (hc : Core.compileCore P = some code)
+    (x : Bytes) (hx : x ∉ Core.usedNames P.body)
+    (a1 a2 : Val) (ρ1 ρ2 : Lang.Env)
+    (hb1 : Lang.bindPat P.params (Lang.SV.ofVal a1) = some ρ1)
+    (hb2 : Lang.bindPat P.params (Lang.SV.ofVal a2) = some ρ2)
+    (hag : ∀ y, y ≠ x → Core.paramValue P.params a1 y = Core.paramValue P.params a2 y) :
+    ∀ n, evalC ops n code a1 = evalC ops n code a2 :=
+  unmentioned_noninterfering_core_partial ops hops P hwf code hc a1 a2 ρ1 ρ2 hb1 hb2
+    (fun y hy => hag y (by intro h; subst h; exact hx hy))
+
+/-- … hence: returns `v` on one iff it returns `v` on the other. -/
+theorem unused_noninterfering_core_value_partial (ops : OpSem) (hops : Core.OpsCore ops) (P : Core.Prog)
+    (hwf : Core.progWF P = true) (code : Val) (hc : Core.compileCore P = some code)
+    (x : Bytes) (hx : x ∉ Core.usedNames P.body)
+    (a1 a2 : Val) (ρ1 ρ2 : Lang.Env)
+    (hb1 : Lang.bindPat P.params (Lang.SV.ofVal a1) = some ρ1)
+    (hb2 : Lang.bindPat P.params (Lang.SV.ofVal a2) = some ρ2)
+    (hag : ∀ y, y ≠ x → Core.paramValue P.params a1 y = Core.paramValue P.params a2 y) (v : Val) :
+    Evaluates ops code a1 v ↔ Evaluates ops code a2 v :=
+  (same_outcomes ops code a1 a2
+    (unused_noninterfering_core_partial ops hops P hwf code hc x hx a1 a2 ρ1 ρ2 hb1 hb2 hag)).1 v
+
+/-- … and: fails on one iff it fails on the other. -/
+theorem unused_noninterfering_core_fails_partial (ops : OpSem) (hops : Core.OpsCore ops) (P : Core.Prog)
+    (hwf : Core.progWF P = true) (code : Val) (hc : Core.compileCore P = some code)
+    (x : Bytes) (hx : x ∉ Core.usedNames P.body)
+    (a1 a2 : Val) (ρ1 ρ2 : Lang.Env)
+    (hb1 : Lang.bindPat P.params (Lang.SV.ofVal a1) = some ρ1)
+    (hb2 : Lang.bindPat P.params (Lang.SV.ofVal a2) = some ρ2)
+    (hag : ∀ y, y ≠ x → Core.paramValue P.params a1 y = Core.paramValue P.params a2 y) :
+    Fails ops code a1 ↔ Fails ops code a2 :=
+  (same_outcomes ops code a1 a2
+    (unused_noninterfering_core_partial ops hops P hwf code hc x hx a1 a2 ρ1 ρ2 hb1 hb2 hag)).2
+
+/-- the model of the use check is sound for the theorem: what `Core.reportedUnused` reports
+    is a lower-case atom of the parameter pattern that the main expression never mentions. -/
+theorem reported_unused_is_unmentioned (P : Core.Prog) (x : Bytes) (h : x ∈ Core.reportedUnused P) :
+    x ∈ Core.paramAtoms P.params ∧ Core.considerAsUncurried x = true ∧ x ∉ Core.usedNames P.body := by
+  have h' := (Core.mem_reportedUnused_iff P x).mp h
+  refine ⟨?_, ?_, Core.isReportedUnused_sound P x h'⟩
+  · simp only [Core.isReportedUnused, Bool.and_eq_true, List.contains_eq_mem, decide_eq_true_eq] at h'
+    exact h'.1.1
+  · simp only [Core.isReportedUnused, Bool.and_eq_true] at h'
+    exact h'.1.2
+
+/-- C17 for the modelled check, jointly: all parameters `Core.reportedUnused` reports may
+    vary at once without influencing the compiled program. -/
+theorem reported_unused_jointly_noninterfering_core_partial (ops : OpSem) (hops : Core.OpsCore ops)
+    (P : Core.Prog) (hwf : Core.progWF P = true) (code : Val) (hc : Core.compileCore P = some code)
+    (a1 a2 : Val) (ρ1 ρ2 : Lang.Env)
+    (hb1 : Lang.bindPat P.params (Lang.SV.ofVal a1) = some ρ1)
+    (hb2 : Lang.bindPat P.params (Lang.SV.ofVal a2) = some ρ2)
+    (hag : ∀ y, y ∉ Core.reportedUnused P → Core.paramValue P.params a1 y = Core.paramValue P.params a2 y) :
+    (∀ n, evalC ops n code a1 = evalC ops n code a2) ∧
+    (∀ v, Evaluates ops code a1 v ↔ Evaluates ops code a2 v) ∧
+    (Fails ops code a1 ↔ Fails ops code a2) :=
+  have h := unmentioned_noninterfering_core_partial ops hops P hwf code hc a1 a2 ρ1 ρ2 hb1 hb2
+    (fun y hy => hag y (fun hr => (reported_unused_is_unmentioned P y hr).2.2 hy))
+  ⟨h, same_outcomes ops code a1 a2 h⟩
+
+/-- C17 for the modelled check: a parameter reported unused by `Core.reportedUnused` cannot
+    influence the compiled program (same outcome at every fuel; same value; fails iff fails). -/
+theorem reported_unused_noninterfering_core_partial (ops : OpSem) (hops : Core.OpsCore ops) (P : Core.Prog)
+    (hwf : Core.progWF P = true) (code : Val) (hc : Core.compileCore P = some code)
+    (x : Bytes) (hx : x ∈ Core.reportedUnused P)
+    (a1 a2 : Val) (ρ1 ρ2 : Lang.Env)
+    (hb1 : Lang.bindPat P.params (Lang.SV.ofVal a1) = some ρ1)
+    (hb2 : Lang.bindPat P.params (Lang.SV.ofVal a2) = some ρ2)
+    (hag : ∀ y, y ≠ x → Core.paramValue P.params a1 y = Core.paramValue P.params a2 y) :
+    (∀ n, evalC ops n code a1 = evalC ops n code a2) ∧
+    (∀ v, Evaluates ops code a1 v ↔ Evaluates ops code a2 v) ∧
+    (Fails ops code a1 ↔ Fails ops code a2) :=
+  reported_unused_jointly_noninterfering_core_partial ops hops P hwf code hc a1 a2 ρ1 ρ2 hb1 hb2
+    (fun y hy => hag y (by intro h; subst h; exact hy hx))
+
+-- non-vacuity ---------------------------------------------------------------------------------------
+
+/-- `(mod (xx (@ cap (yy . zz)) . ww) (defun fn (A B) (+ A B)) (if xx (fn zz (q . 1)) (q . 7)))`:
+    `yy` sits in a nested, dotted pattern under a capture and is never used; neither are
+    `cap` and `ww`. -/
+def exampleProg : Core.Prog :=
+  { params := .cons (.atom [120, 120])
+      (.cons (.cons (.atom [64]) (.cons (.atom [99, 97, 112])
+          (.cons (.cons (.atom [121, 121]) (.atom [122, 122])) .nil)))
+        (.atom [119, 119])),
+    fns := [⟨[102, 110], .cons (.atom [65]) (.cons (.atom [66]) .nil),
+             .op 16 (.cons (.var [65]) (.cons (.var [66]) .nil))⟩],
+    body := .ite (.var [120, 120])
+      (.call [102, 110] (.cons (.var [122, 122]) (.cons (.lit (.atom [1])) .nil)))
+      (.lit (.atom [7])) }
+
+/-- `(5 (1 . 2) . 9)`, `(5 ((3 . 4) . 2) . 9)` (differs in what `yy`, and the capture `cap`
+    around it, bind) and `(5 (1 . 2) 8 8)` (differs from the first only in `ww`). -/
+def exampleArgs1 : Val := .pair (.atom [5]) (.pair (.pair (.atom [1]) (.atom [2])) (.atom [9]))
+def exampleArgs2 : Val := .pair (.atom [5]) (.pair (.pair (.pair (.atom [3]) (.atom [4])) (.atom [2])) (.atom [9]))
+def exampleArgs3 : Val := .pair (.atom [5]) (.pair (.pair (.atom [1]) (.atom [2])) (.pair (.atom [8]) (.pair (.atom [8]) Val.nil)))
+
+example : Core.progWF exampleProg = true := by decide
+example : (Core.compileCore exampleProg).isSome = true := by decide
+example : Core.reportedUnused exampleProg = [[99, 97, 112], [121, 121], [119, 119]] := by decide
+example : [121, 121] ∉ Core.usedNames exampleProg.body := by decide
+-- the argument values really differ at `yy` / `ww` and agree at the used names
+example : Core.paramValue exampleProg.params exampleArgs1 [121, 121] = some (.atom [1]) := by decide
+example : Core.paramValue exampleProg.params exampleArgs2 [121, 121] = some (.pair (.atom [3]) (.atom [4])) := by decide
+example : Core.paramValue exampleProg.params exampleArgs1 [119, 119] = some (.atom [9]) := by decide
+example : Core.paramValue exampleProg.params exampleArgs1 [122, 122] = some (.atom [2]) := by decide
+example : Core.paramValue exampleProg.params exampleArgs2 [122, 122] = some (.atom [2]) := by decide
+
+/-- the joint theorem applied: `yy` (with its capture `cap`) varies, every hypothesis holds. -/
+example : ∃ code, Core.compileCore exampleProg = some code ∧
+    ∀ n, evalC Ops.chiaOps n code exampleArgs1 = evalC Ops.chiaOps n code exampleArgs2 := by
+  cases hc : Core.compileCore exampleProg with
+  | none => exact absurd hc (by decide)
+  | some code =>
+    refine ⟨code, rfl, ?_⟩
+    cases hb1 : Lang.bindPat exampleProg.params (Lang.SV.ofVal exampleArgs1) with
+    | none => exact absurd hb1 (by decide)
+    | some ρ1 =>
+      cases hb2 : Lang.bindPat exampleProg.params (Lang.SV.ofVal exampleArgs2) with
+      | none => exact absurd hb2 (by decide)
+      | some ρ2 =>
+        refine unmentioned_noninterfering_core_partial Ops.chiaOps Core.chiaOps_core exampleProg (by decide) code hc
+          exampleArgs1 exampleArgs2 ρ1 ρ2 hb1 hb2 ?_
+        decide
+
+/-- the single-parameter theorem applied: only `ww` (the dotted tail) varies. -/
+example : ∃ code, Core.compileCore exampleProg = some code ∧
+    ∀ n, evalC Ops.chiaOps n code exampleArgs1 = evalC Ops.chiaOps n code exampleArgs3 := by
+  cases hc : Core.compileCore exampleProg with
+  | none => exact absurd hc (by decide)
+  | some code =>
+    refine ⟨code, rfl, ?_⟩
+    have hb1 : Lang.bindPat exampleProg.params (Lang.SV.ofVal exampleArgs1) = some
+        [([120, 120], .atom [5]), ([99, 97, 112], .pair (.atom [1]) (.atom [2])), ([121, 121], .atom [1]),
+         ([122, 122], .atom [2]), ([119, 119], .atom [9])] := by rfl
+    have hb3 : Lang.bindPat exampleProg.params (Lang.SV.ofVal exampleArgs3) = some
+        [([120, 120], .atom [5]), ([99, 97, 112], .pair (.atom [1]) (.atom [2])), ([121, 121], .atom [1]),
+         ([122, 122], .atom [2]), ([119, 119], .pair (.atom [8]) (.pair (.atom [8]) (.atom [])))] := by rfl
+    refine (reported_unused_noninterfering_core_partial Ops.chiaOps Core.chiaOps_core exampleProg (by decide) code hc
+      [119, 119] (by decide) exampleArgs1 exampleArgs3 _ _ hb1 hb3 ?_).1
+    intro y hy
+    have hne : ([119, 119] == y) = false := by
+      cases h : ([119, 119] == y) with
+      | false => rfl
+      | true => exact absurd (by simpa using h : [119, 119] = y).symm hy
+    unfold Core.paramValue
+    rw [hb1, hb3]
+    simp only [Lang.lookupEnv, hne]
+    simp
 
 end C17
